@@ -250,6 +250,31 @@ func decJobs(ctx *core.Ctx) ([]*job, []foreignLine, error) {
 			jobs = append(jobs, &job{Dir: "dec", Fmt: "flate", Variant: "czlib", Level: []int{0, 1, 6, 9}[r.Intn(4)], data: d})
 		}
 	}
+	// LZW from an encoder that defers the clear code: the table is filled
+	// completely, n more codes follow (among them the last table entry,
+	// repeatedly), then the clear code and ordinary data.  The first ones of
+	// each EarlyChange setting are judged by Lzw.RefDecode in TLC, the others
+	// by the independent decoder.
+	for k := 0; k < ctx.Pick(12, 60); k++ {
+		early := k % 2
+		n := []int{2, 3, 1, 5, 40, 300}[k/2%6]
+		prefix := c06.GenBytes(r, []string{"random", "pairs", "text", "random"}[k%4], 9000)
+		tail := c06.GenBytes(r, "random", r.Intn(300))
+		enc, d := codecs.LZWEncodeDeferredClear(prefix, early, n, func(i, top int) int {
+			switch (i + k) % 4 {
+			case 0, 1:
+				return top
+			case 2:
+				return top - 1 - r.Intn(3)
+			}
+			return 258 + r.Intn(top-257)
+		}, tail)
+		v := "deferred-clear"
+		if k < 4 {
+			v = "deferred-clear-tlc"
+		}
+		add("lzw", v, early, predP{}, d, enc)
+	}
 	return jobs, lines, nil
 }
 
@@ -312,9 +337,9 @@ func run(ctx *core.Ctx) error {
 	ctx.Ev.Assume("records larger than about 1 kB are compared with harness/indep/codecs (validated against the TLA+ modules in the same run) and judged by TLC only on disagreement")
 	rp := &reporter{ctx: ctx, seen: map[string]bool{}}
 
-	if err := runModels(ctx); err != nil {
-		return err
-	}
+	// the design models run while the foreign encodings are generated and executed
+	modelErr := make(chan error, 1)
+	go func() { modelErr <- runModels(ctx) }()
 	py, err := startPython()
 	if err != nil {
 		return err
@@ -353,6 +378,9 @@ func run(ctx *core.Ctx) error {
 	}
 	ctx.Ev.Set("runs_by_direction_and_format", byFmt)
 	ctx.Ev.Set("encoder_refused", refused)
+	if err := <-modelErr; err != nil {
+		return err
+	}
 	if err := verdicts(ctx, rp, jobs, res, false); err != nil {
 		return err
 	}
